@@ -7,6 +7,13 @@ TRUST = ('rustc MIR construction + type checker (nightly 1.97), the mirfacts dri
          '(lint/extern_models.py), dependency crates not analysed; see DESIGN.md 2.1')
 
 CLAIMS = {
+ 'C15': dict(
+    text='Static, all inputs: where the reader stands after a successful decode is decided on the MIR of the decode closure. M7 the macroblock loop has '
+         'an exit, dominating the macroblock parse, that fires when len(macroblock vector) >= mb_per_line*mb_height (found D1: absent; fixed); RS the '
+         'resynchronisation probe decode_gob / decode_picture are union transactions whose Ok(None) arm leaves the loop without consuming, only outside '
+         'Sorenson mode; T7/T4 a failed macroblock or block parse consumes nothing; CM exactly one commit(), after the loop, on every Ok path, with no '
+         'reader movement between loop exit and commit. Hence on success the position is the end of the last macroblock and padding is never read.',
+    technique='loop/dominance/control-dependence rules with structural expression matching over MIR; mod/ref effects', ref='6/C15'),
  'C04': dict(
     text='Static, all histories by induction over one call: the state-update discipline of H263State is decided on MIR. R1 accessor guard/key '
          'field agreement (found D5, fixed) and the prediction source is get_reference_picture(); R2 by control dependence in the final section '
